@@ -32,15 +32,20 @@ def check(rep, an, tier):
     spec = D.hooks()
     api_results = []
     # ---- register_system: A
-    for given in (None, "array"):
-        fields = est_fields("array", None)
+    for given in (None, "array", "step"):
+        fields = est_fields("array" if given != "step" else "scalar", None)
+        if given == "step":
+            given = None
+            step = True
+        else:
+            step = False
         fields["K"] = arr("self.K", S("F"), U_K)
         fields["baseline"] = arr("self.baseline", S("F"), U_CAPTURE, "BASE")
         dom = "domain" if given else "self.domain"
         src = D.on(arr("sources", S("SRC", "D@" + dom), U_SIGNAL), dom)
         kw = dict(sources=src, domain=D.domain_val("domain") if given else none(), lb=arr("lb", S("SRC"), U_INT),
                   ub=arr("ub", S("SRC"), U_INT), labels=none(), Epsilon=none())
-        res = an.run(f"{EST}.register_system", kws=kw, self_fields=fields, spec=spec, config=f"domain={given}")
+        res = an.run(f"{EST}.register_system", kws=kw, self_fields=fields, spec=spec, config=f"domain={given}" + (",step" if step else ""))
         api_results.append(res)
         entry = "ReceptorEstimator.register_system"
         st = [e for e in res.events("self_store") if e.d["attr"] == "A"]
@@ -51,6 +56,7 @@ def check(rep, an, tier):
         v = st[-1].d["val"].flat()
         ev = st[-1]
         need = {"self.filters", "self.domain", "sources"} | ({"domain"} if given else set())
+        R.rule_dtype(rep, res, "ReceptorEstimator.register_system")
         for o in sorted(need):
             rep.check("R-FLOW", f"{o} → A", o in v.data, where=ev.loc, construct=f"{o} → {ev.text()}", entry=entry, config=res.config,
                       msg=f"A depends on {sorted(v.data)}")
@@ -117,6 +123,16 @@ def check(rep, an, tier):
                 R.rule_type_errors(rep, res, "QTY", "R-QTY", entry)
                 R.rule_effect_free(rep, res, entry, reg=_reg(an))
                 R.rule_purity(rep, res, entry)
+                for tv in res.events("abs_tolerance"):
+                    if tv.d.get("dimensioned"):
+                        at = tv.d.get("atol")
+                        if at is not None and at.known and at.const == 0:
+                            continue
+                        rep.violated("R-QTY", "how K and the baseline are applied does not depend on an absolute tolerance", where=tv.loc,
+                                     construct=tv.text(), entry=entry, config=cfgs,
+                                     msg="an absolute tolerance on a quantity with physical units (gains in inverse capture units, captures) selects "
+                                         "the formula of the relative capture: for small units entries that matter compare as zero and the result "
+                                         "is not K·(Q + baseline)")
     # sibling: apply_linear_transform
     for Kk in ("vec", "mat"):
         FR = rel_axis(Kk)
